@@ -132,10 +132,17 @@ def c22_congruence(R):
             d = c.left
             if not (isinstance(d, ast.BinOp) and isinstance(d.op, ast.Mod) and _is_stride(d.right)):
                 continue
-            n += 1
             dist = d.left
+            if _is_stride(dist) or isinstance(dist, ast.Constant):
+                continue  # divisibility between two strides: no distance on the circle is involved
+            n += 1
             ok = _modular(dist)
             why = "reduced modulo 2**w"
+            if not ok and isinstance(dist, ast.Name):
+                # a local holding the distance
+                defs = [st.value for st in walk_no_nested(fn) if isinstance(st, ast.Assign) and len(st.targets) == 1 and isinstance(st.targets[0], ast.Name) and st.targets[0].id == dist.id]
+                if len(defs) == 1 and _modular(defs[0]):
+                    ok = True
             if not ok and isinstance(dist, ast.BinOp) and isinstance(dist.op, ast.Sub):
                 a, b = ast.unparse(dist.left), ast.unparse(dist.right)
                 facts = _facts(c)
